@@ -378,6 +378,10 @@ def run_config(ctx, feat):
     sibling_signatures(rep, Fr)
     nv = numeric_visitors(rep, Fr)
     nz = zero_not_padded(rep, Fr)
+    # visit_f32/visit_f64 end in parse_from_fNN: every float-dependent return of the converters carries the sign
+    from rules import bitfield
+    nsg = bitfield.returns_carry_sign(rep, Fr)
+    rep.floor('float converters behind visit_f32/visit_f64 checked for the sign', nsg, 4)
     rep.floor('callers of the zero-padding routine', nz, 1)
     rep.floor('numeric visitor methods', nv, 6)
     return len(ents_d), nsites, nf, ns, nl
